@@ -577,7 +577,7 @@ def fam_cluster(tier, base):
     cfg = "MC_ClusterScen_quick.cfg" if q else "MC_ClusterScen_thorough.cfg"
     r = verif.model_check("MC_ClusterScen", cfg, timeout=3000, workers=1)
     inputs, trace = base + ".in.ndjson", base + ".trace.ndjson"
-    every = 3 if q else 2
+    every = 4 if q else 2
     sel = []
     for x in dict.fromkeys(r.tagged("INPUT")):
         d = json.loads(x)
@@ -608,3 +608,26 @@ prop("C12", "cluster", "create scenarios (4 strategies x counts x requests x inc
 prop("C13", "cluster", "create scenarios: after EVERY external call of the deployment the real deploy status and the recorded workloads are read (under the gate) and compared with prior + planned; after return no marker of the application remains; non-trivial = observations", _A_CL + ["etcd store only in this family; the redis counting rule is covered by the store family (C23) through the same reference"])
 prop("C14", "cluster", "create / remove / replace scenarios with a crash before each sampled external call, then recovery in a fresh instance; non-trivial = crashes", _A_CL)
 prop("C22", "cluster", "referential consistency predicates on every pre- and post-state of the runs (sequential and faulted); concurrent histories are the cluster_conc family; non-trivial = runs", _A_CL)
+
+
+# =========================================================================== Node selection + lock order: C21, C20
+@family("select")
+def fam_select(tier, base):
+    r = verif.model_check("MC_NodeSelect", "MC_NodeSelect.cfg", timeout=3000, workers=1)
+    inputs, trace = base + ".in.ndjson", base + ".trace.ndjson"
+    n = verif.emit_inputs(r, inputs)
+    b = verif.build_driver("cluster")
+    verif.run_driver_sharded(b, "TestClusterSelect", inputs, trace, shards=6, timeout=7000)
+    os.remove(inputs)
+    viols, tr = verif.validate_trace("Trace_NodeSelect", "Trace_NodeSelect.cfg", trace)
+    lines = verif.read_lines(trace)
+    cnt = lambda s: sum(1 for ln in lines if s in ln)
+    return dict(trace=trace, viols=viols, states=r.distinct, transitions=r.generated, configs=["MC_NodeSelect.cfg", "Trace_NodeSelect.cfg"], window=3,
+                traces={"*": cnt('"ev":"Select"')}, samples={"*": [json.loads(x) for x in lines[:3]]},
+                nontrivial={"C21": cnt('"ev":"Select"'), "C20": cnt('"ev":"SelLock"')},
+                notes="%d TLC-enumerated node filters (every include list of 1-3 names over 5 nodes in 2 pods and a missing name, with repeats and in every order; pod / all-pods selection x excludes x label x all) used in Calcium.CalculateCapacity on a universe with up, bypassed, down and bypassed-but-alive nodes; the node set passed to the resource manager and the lock sequence are judged" % n)
+
+
+prop("C21", "select", "every enumerated node filter; observed = the node names the wrapped resource manager is asked about under that filter (the nodes of the locked callback); non-trivial = filters", _A_CL[:1] + ["real (non-mock) nodes have no engine: they are written directly to store and plugin; their heartbeat is a node status with a long TTL"])
+prop("C20", "select", "lock sequences of node-filtered operations over the enumerated filters (include lists in any order across two pods) + every operation of the cluster family (create, remove, dissociate, realloc, replace, set-node, remove-node, remove-pod, node-resource, remap) with its nested helpers; the locks held on the calling path travel in the context returned by Lock; non-trivial = lock acquisitions judged", _A_CL[:1])
+ALSO["C20"] = ["cluster"]
